@@ -632,9 +632,24 @@ def run_check(tier, seed):
         'hand-written models lean/PnVerif/Model/Header.lean + Model/Safety.lean (tied by correspondence, not by proof)',
         'gcc 12 AddressSanitizer + UndefinedBehaviorSanitizer: what they do not report is not seen',
         'harness/c19_open.c, harness/apirun.c, checks/c19.py, checks/apigen.py (generators, classification)']
-    tree_p = build_impl('plain')
-    tree_a = build_impl('asan')
     wd = workdir('c19')
+    # S1 + harness builds.  The scratch builds are shared with the other checks and evicted when /repo changes:
+    # a build directory that disappears between build_impl() and the compile is rebuilt, not reported.
+    for attempt in range(3):
+        try:
+            tree_p = build_impl('plain')
+            tree_a = build_impl('asan')
+            src = os.path.join(VERIF, 'harness/c19_open.c')
+            open_p = cc(tree_p, [src], os.path.join(wd, 'c19_open'))
+            open_a = cc(tree_a, [src], os.path.join(wd, 'c19_open_asan'), asan=True)
+            api_p = apicmp.build_apirun(tree_p, wd)
+            api_a = apicmp.build_apirun(tree_a, wd, '_asan')
+            break
+        except BuildFailed as ex:
+            if attempt == 2 or 'harness compile failed' not in str(ex) or 'No such file' not in str(ex):
+                cleanup(wd)
+                raise
+            log('[S1] scratch build evicted during the compile, rebuilding')
     try:
         # ---- S3
         ok, out = lake_build(['PnVerif.Props.C19', 'c19drv'])
@@ -662,12 +677,6 @@ def run_check(tier, seed):
         if not os.path.exists(drv):
             V.broken_tie('Lean driver c19drv does not build', out[-1500:])
             return V.finish()
-        # ---- harness builds
-        src = os.path.join(VERIF, 'harness/c19_open.c')
-        open_p = cc(tree_p, [src], os.path.join(wd, 'c19_open'))
-        open_a = cc(tree_a, [src], os.path.join(wd, 'c19_open_asan'), asan=True)
-        api_p = apicmp.build_apirun(tree_p, wd)
-        api_a = apicmp.build_apirun(tree_a, wd, '_asan')
         fails = []          # (sig, text, replay)
         dist = {}
         # ---- S4a malformed-file stream
